@@ -95,6 +95,7 @@ def run(tier, seed):
         if il.startswith("OK") and il != exp:
             chk.violation("authentication result does not report exactly what the authenticator data says", "auth-fields", {"scenario": s.describe(), "impl": il, "expected": exp})
     B.close(); A.close()
+    fw.env_invariance(chk, "reg")          # the same seeded cases under -O / -OO, warnings-as-errors, other TZ / locale, a private CA bundle
     return fw.finish(chk, ob, br, TRUSTED,
                      ["'conformant' = produced by the ceremony simulator from admissible parameters; RS1 credentials are presented with RS1 in the allowed list",
                       "vendor ids are spelt as in the TCG registry (upper-case hex)"],
